@@ -410,7 +410,7 @@ var lexAlphabet = []int{'a', 'b', 'c', 'x', 'y', 'z', '0', '1', '9', '_', '+', '
 
 func genCp(r *Rng, small bool) int {
 	if small || r.Chance(3, 4) {
-		return lexAlphabet[r.Intn(10)]
+		return lexAlphabet[r.Intn(12)] // includes '-' (written \- inside a class, also between two other items)
 	}
 	return Pick(r, lexAlphabet)
 }
